@@ -150,10 +150,15 @@ def handle (j : Json) : Json :=
     | "hash" =>
       let v ← valOfJson (← j.getObjVal? "v")
       if !wellScoped [] v then throw "ill-scoped ref" else
-      match hashFunction HB v, hashAlone HB v with
-      | .ok h, .ok a => pure (Json.mkObj [("hex", Json.str (toHexStr h)), ("alone", Json.str (toHexStr a))])
-      | .error e, _ => pure (Json.mkObj [("error", Json.str (errTag e))])
-      | _, .error e => pure (Json.mkObj [("error", Json.str (errTag e))])
+      let wantAlone := (j.getObjValAs? Bool "alone").toOption.getD false
+      match hashFunction HB v with
+      | .error e => pure (Json.mkObj [("error", Json.str (errTag e))])
+      | .ok h =>
+        if wantAlone then
+          match hashAlone HB v with
+          | .ok a => pure (Json.mkObj [("hex", Json.str (toHexStr h)), ("alone", Json.str (toHexStr a))])
+          | .error e => pure (Json.mkObj [("error", Json.str (errTag e))])
+        else pure (Json.mkObj [("hex", Json.str (toHexStr h))])
     | "hash_ctx" =>
       let vs ← (← getArr j "vs").toList.mapM valOfJson
       if !(vs.all (wellScoped [])) then throw "ill-scoped ref" else
